@@ -399,7 +399,9 @@ func (c *SimpleBreaker) Do(f func() error) (bool, error) {
 			err = f()
 		}
 	}
-	return status.Closed, err
+	// We attempted the call whenever we made it: a caller such as
+	// Throttle.Submit tries again when told that we did not.
+	return status.Closed || status.Disabled, err
 }
 
 // GoroutineBreaker makes a SimpleBreaker based on goroutine count.
